@@ -17,6 +17,8 @@ pub struct CmdDef {
     pub k: usize,
     pub sleep_ms: u64,
     pub with_append: bool,
+    /// the definition declares a module and its explicit append goes through a module function
+    pub with_module: bool,
     pub fail: &'static str, // "none" | "eager" | "lazy"
     pub suffix: Option<&'static str>,
     pub ttl: Option<&'static str>,
@@ -28,6 +30,7 @@ pub fn gen_def(rng: &mut Rng, tag: &str) -> CmdDef {
         k: rng.below(5),
         sleep_ms: *rng.pick(&[0u64, 0, 2, 5]),
         with_append: rng.chance(300),
+        with_module: rng.chance(250),
         fail: *rng.pick(&["none", "none", "none", "eager", "lazy"]),
         suffix: *rng.pick(&[None, None, Some(".result")]),
         ttl: *rng.pick(&[None, None, Some("head:50"), Some("forever"), Some("ephemeral")]),
@@ -40,7 +43,9 @@ pub fn def_script(d: &CmdDef) -> String {
     // isolation probe: every call must see the initial environment
     body.push_str("    let before = ($env.XS_PROBE? | default \"unset\")\n    $env.XS_PROBE = \"dirty\"\n");
     body.push_str("    let arg = ($frame.meta.arg? | default \"none\")\n");
-    if d.with_append {
+    if d.with_append && d.with_module {
+        body.push_str("    $\"side-($arg)\" | .append side.note --meta {arg: (cmod same $arg)}\n");
+    } else if d.with_append {
         body.push_str("    $\"side-($arg)\" | .append side.note --meta {arg: $arg}\n");
     }
     if d.fail == "eager" {
@@ -63,6 +68,9 @@ pub fn def_script(d: &CmdDef) -> String {
             ro.push_str(&format!("ttl: \"{}\"", t));
         }
         ro.push_str("}\n");
+    }
+    if d.with_module {
+        ro.push_str("  modules: {cmod: \"export def same [x] { $x }\"}\n");
     }
     format!("{{\n{}  run: {{|frame|\n{}  }}\n}}", ro, body)
 }
@@ -183,7 +191,7 @@ fn case(srv: &mut Srv, seed: u64, res: &mut CaseResult) -> R<()> {
                     res.inconclusive = Some(format!("generated definition rejected: {:?}\n{}", e.meta, def_script(&d)));
                     return Ok(());
                 }
-                res.seen("definition_shapes", format!("k={}/sleep={}/append={}/fail={}/suffix={:?}/ttl={:?}", d.k, d.sleep_ms, d.with_append, d.fail, d.suffix, d.ttl));
+                res.seen("definition_shapes", format!("k={}/sleep={}/append={}/module={}/fail={}/suffix={:?}/ttl={:?}", d.k, d.sleep_ms, d.with_append, d.with_module, d.fail, d.suffix, d.ttl));
                 current.insert(name.to_string(), (f.id, d));
             }
             "redefine-identical" => {
